@@ -127,6 +127,9 @@ pub struct BytecodeBuilder {
     /// Block-scope depth (PushScope nesting) at the current emission point
     scope_depth: usize,
 
+    /// Identity of every open block scope (index of the instruction that opened it)
+    scope_ids: Vec<usize>,
+
     /// Bytecode instructions
     code: Vec<Op>,
 
@@ -160,6 +163,7 @@ impl BytecodeBuilder {
     pub fn new() -> Self {
         Self {
             scope_depth: 0,
+            scope_ids: Vec::new(),
             code: Vec::new(),
             constants: Vec::new(),
             string_map: FxHashMap::default(),
@@ -213,6 +217,12 @@ impl BytecodeBuilder {
     /// is reached from inside a scope the preceding instruction has just popped).
     pub fn enter_scope_untracked(&mut self) {
         self.scope_depth += 1;
+        self.scope_ids.push(usize::MAX - self.code.len());
+    }
+
+    /// Identity of the innermost open block scope (None at function level)
+    pub fn current_scope_id(&self) -> Option<usize> {
+        self.scope_ids.last().copied()
     }
 
     /// Emit an instruction and return its index
@@ -220,8 +230,14 @@ impl BytecodeBuilder {
         let index = self.code.len();
 
         match op {
-            Op::PushScope => self.scope_depth += 1,
-            Op::PopScope => self.scope_depth = self.scope_depth.saturating_sub(1),
+            Op::PushScope => {
+                self.scope_depth += 1;
+                self.scope_ids.push(index);
+            }
+            Op::PopScope => {
+                self.scope_depth = self.scope_depth.saturating_sub(1);
+                self.scope_ids.pop();
+            }
             _ => {}
         }
 
